@@ -7,7 +7,10 @@
 #include "gm2calc/gm2_error.hpp"
 
 #include <algorithm>
+#include <cfenv>
+#include <clocale>
 #include <iostream>
+#include <locale>
 #include <map>
 #include <memory>
 #include <set>
@@ -151,10 +154,51 @@ void build_model(Model& out, const std::string& kind, uint64_t arg)
    else if (kind == "slha" && !g_corpus.empty()) { const CorpusFile& f = g_corpus[arg % g_corpus.size()]; ops::make_from_slha(f.bytes, f.type, &out.m, &out.t); }
 }
 
+// ---- process-global / thread-global environment an evaluation could leave changed ("does not depend on what was
+// computed before in the same process"): floating-point control state (rounding mode, exception masks, FTZ/DAZ,
+// x87 precision control), the state of the standard streams the library's diagnostics go to, the C and C++ locales.
+struct EnvSnap {
+   int round = 0; unsigned mxcsr_ctl = 0; unsigned short x87cw = 0;
+   std::ios_base::fmtflags cf[3]{}; std::streamsize cp[3]{}, cw[3]{}; char cfill[3]{}; std::ios_base::iostate cexc[3]{};
+   std::string clocale, cxxlocale;
+   static EnvSnap take()
+   {
+      EnvSnap e;
+      e.round = std::fegetround();
+#if defined(__x86_64__) || defined(__i386__)
+      unsigned m = 0; __asm__ __volatile__("stmxcsr %0" : "=m"(m)); e.mxcsr_ctl = m & 0xffc0u; // control bits only: the sticky exception flags change legitimately
+      unsigned short w = 0; __asm__ __volatile__("fnstcw %0" : "=m"(w)); e.x87cw = w;
+#endif
+      std::ostream* os[3] = {&std::cout, &std::cerr, &std::clog};
+      for (int i = 0; i < 3; ++i) { e.cf[i] = os[i]->flags(); e.cp[i] = os[i]->precision(); e.cw[i] = os[i]->width(); e.cfill[i] = os[i]->fill(); e.cexc[i] = os[i]->exceptions(); }
+      const char* l = std::setlocale(LC_ALL, nullptr); e.clocale = l ? l : "";
+      e.cxxlocale = std::locale().name();
+      return e;
+   }
+   const char* diff(const EnvSnap& o) const
+   {
+      if (round != o.round) return "rounding_mode";
+      if (mxcsr_ctl != o.mxcsr_ctl) return "mxcsr_control_bits";
+      if (x87cw != o.x87cw) return "x87_control_word";
+      for (int i = 0; i < 3; ++i) if (cf[i] != o.cf[i] || cp[i] != o.cp[i] || cw[i] != o.cw[i] || cfill[i] != o.cfill[i] || cexc[i] != o.cexc[i]) return i == 0 ? "cout_format_state" : i == 1 ? "cerr_format_state" : "clog_format_state";
+      if (clocale != o.clocale) return "c_locale";
+      if (cxxlocale != o.cxxlocale) return "cxx_global_locale";
+      return nullptr;
+   }
+};
+
 bool g_check_copy = false; ///< sequential reference only: every evaluation is repeated on a fresh copy of its model
 
 /// one operation of a task program; identical code path in simulated and sequential executions
+OpResult exec_op_inner(Context& c, const std::vector<std::string>& t, std::vector<std::string>& modified);
 OpResult exec_op(Context& c, const std::vector<std::string>& t, std::vector<std::string>& modified)
+{
+   const EnvSnap before = EnvSnap::take();
+   OpResult r = exec_op_inner(c, t, modified);
+   if (const char* d = EnvSnap::take().diff(before)) modified.push_back(std::string("global_env:") + d + ":" + (t[0] == "ev" && t.size() > 1 ? t[1] : t[0]));
+   return r;
+}
+OpResult exec_op_inner(Context& c, const std::vector<std::string>& t, std::vector<std::string>& modified)
 {
    OpResult r;
    auto model_ref = [&](size_t i) -> Model* {
@@ -475,7 +519,8 @@ RunOut run_plan(const std::vector<std::string>& lines, uint64_t run_index)
    // (3) argument preservation
    for (auto* mods : {&mod_c, &mod_s, &mod_a}) for (int i = 0; i < nt; ++i) if (!(*mods)[i].empty()) {
       const std::string& w = (*mods)[i][0];
-      if (w.compare(0, 13, "copy-differs:") == 0) { out.sig = "mismatch:copy:" + w.substr(13); out.detail = w.substr(13) + " evaluated on a fresh copy of the model differs from the value on the original, task " + std::to_string(i); }
+      if (w.compare(0, 11, "global_env:") == 0) { out.sig = "modified:" + w; out.detail = "an operation left process/thread-global state changed (" + w.substr(11) + "), task " + std::to_string(i); }
+      else if (w.compare(0, 13, "copy-differs:") == 0) { out.sig = "mismatch:copy:" + w.substr(13); out.detail = w.substr(13) + " evaluated on a fresh copy of the model differs from the value on the original, task " + std::to_string(i); }
       else { out.sig = "modified:" + w; out.detail = "the model passed to " + w + " changed (byte image differs after the call), task " + std::to_string(i); }
       return out;
    }
